@@ -210,6 +210,15 @@ func c18Run(c c18Case) error {
 				r.Entropy()
 			})
 			capt = append(capt, c2...)
+			if c.Key1%3 == 0 && c.WL.Length >= 2 { // same decision and fault position for both streams
+				// the source fails after some words have been drawn: whatever is
+				// written then must not name them
+				c3 := capture(func() {
+					tp := &tape.Tape{TailKey: key | 1, Cap: 1 << 20, Fault: &tape.Fault{AtRead: 1 + int(c.Key1>>8)%(2*c.WL.Length), Persist: c.Key1&16 != 0}}
+					callRaw(tp, r.Generate) // panic or error is the expected outcome (C09)
+				})
+				capt = append(capt, c3...)
+			}
 		}
 		if o.Panic != nil {
 			return one{}, &ev.Skip{Why: "panic (judged by C13)"}
